@@ -785,6 +785,19 @@ func checkUserLevels(senderLevel int64, senderID spec.SenderID, oldPowerLevels, 
 		}
 	}
 
+	// Nor may an entry be added with a level above the sender's, also where
+	// users_default gives that user as much today: the entry is a user level set
+	// above the sender's own, and it stays when the default is lowered.
+	for userSenderID, newLevel := range newPowerLevels.Users {
+		if _, had := oldPowerLevels.Users[userSenderID]; !had && senderLevel < newLevel {
+			return errorf(
+				"sender %q with level %d is not allowed to give user %q the level %d"+
+					" because the new level is above the level of the sender",
+				senderID, senderLevel, userSenderID, newLevel,
+			)
+		}
+	}
+
 	// Check each of the levels in the list.
 	for userSenderID, level := range userLevelChecks {
 		// Check if the level is being changed.
